@@ -10,7 +10,7 @@ def replay(case):
 def names(tier):
     out = ['h_e_rt_simple', 'h_e_rt_dag', 'h_e_rt_digraph', 'h_e_rt_bip', 'h_e_rt_bip33',
            'h_e_rt_big_simple', 'h_e_rt_big_dag', 'h_e_rt_big_digraph', 'h_e_rt_big_bip', 'h_e_write_mutate_write', 'h_e_rt_complete_bip', 'h_e_read_write_read',
-           'h_e_kth2', 'h_e_dim2', 'h_e_mat2', 'h_e_len01', 'h_e_mat3', 'h_e_bip_handwritten']
+           'h_e_kth2', 'h_e_dim2', 'h_e_mat2', 'h_e_len01', 'h_e_mat3', 'h_e_bip_handwritten', 'h_e_simple_handwritten', 'h_e_from_file_named']
     out += ['h_e_kth3_%d_%d' % (t, g) for t in range(4) for g in range(4)]
     out += ['h_e_dim3_%d_%d' % (t, g) for t in range(3) for g in range(3)]
     if tier != 'quick':
